@@ -16,8 +16,8 @@ import numpy as np
 from harness import common as C
 
 PROP = "C16"
-TARGETS = ["IbicusModel.Props.C16"]
-GEN = ["StatsKernels"]
+TARGETS = ["IbicusModel.Props.C16", "IbicusModel.Lemmas.GenStats"]
+GEN = ["StatsKernels", "Stats"]
 
 EM = ["step_function", "linear_interpolation", "kernel_density"]
 IM = ["inverted_cdf", "averaged_inverted_cdf", "closest_observation", "interpolated_inverted_cdf", "hazen", "weibull",
@@ -122,6 +122,89 @@ def gen_case_int(rng, k):
     return dict(k=k, scale=1.0, kind_x=kx, x=x, y=y, y2=y2, vals=vals, ps=ps, dtype="int64")
 
 
+# ------------------------------------------------------------------ related (source, target, evaluation vector) triples
+# The property quantifies over ALL samples: "quantile mapping BETWEEN TWO SAMPLES is monotone, maps into the range of the
+# target sample ... for all samples, all evaluation points, all ecdf x iecdf method combinations".  gen_case draws the source x and
+# the target y independently, so pairs that are RELATED — the same values (a model mapped onto itself, obs == cm_hist in a
+# validation run), the very same array object, a permutation / reversed view / sub-sample / superset of one another, a
+# shifted, scaled, negated or nearly equal copy, both already sorted, the evaluation vector being the target itself — have
+# probability zero there.  These are exactly the pairs where code can take a "shortcut" (identity, early return, cached
+# sort) and the laws (range of the target, monotone, end points, extrapolation shift, equal-size reproduction) must hold for them
+# just the same.  Every relation is scheduled (not drawn), the evaluation points go beyond BOTH samples' ranges.
+RELATIONS = ["same_values", "same_object", "permuted", "reversed_view", "shifted", "scaled", "negated", "nearly_equal", "subsample", "superset",
+             "sorted_both", "vals_is_target"]
+
+
+def gen_related_case(rng, k, j):
+    rel = RELATIONS[j % len(RELATIONS)]
+    for _ in range(20):
+        c = gen_case(rng, k)
+        if c["x"].size >= 2:
+            break
+    if rel in ("same_object", "reversed_view", "vals_is_target") and c["dtype"] != "float64":
+        # object identity / shared memory needs one dtype, and the target is float64 (see gen_case)
+        for a in ("x", "y2", "vals"):
+            c[a] = c[a].astype(np.float64)
+        c["dtype"] = "float64"
+    x, scale = c["x"], c["scale"]
+    n = x.size
+    xf = x.astype(np.float64)  # a copy; float32 / int64 values are exact in float64
+    aliases = []
+    if rel == "same_values":
+        y = xf
+    elif rel == "same_object":
+        y = x
+        aliases.append("y_is_x")
+    elif rel == "permuted":
+        perm = list(range(n))
+        rng.shuffle(perm)
+        y = xf[perm]
+    elif rel == "reversed_view":
+        y = x[::-1]
+        aliases.append("y_is_reversed_view_of_x")
+    elif rel == "shifted":
+        y = xf + rng.choice([-12, -3, -1, 1, 5, 40]) / 4.0 * scale
+    elif rel == "scaled":
+        y = xf * rng.choice([0.5, 2.0, 4.0])
+    elif rel == "negated":
+        y = -xf
+    elif rel == "nearly_equal":  # np.allclose(x, y) holds, np.array_equal does not
+        y = xf * (1.0 + rng.choice([-3, -1, 1, 2]) * 2.0 ** -30)
+    elif rel == "subsample":
+        y = xf[sorted(rng.sample(range(n), rng.randint(1, max(1, n - 1))))]
+    elif rel == "superset":
+        y = np.concatenate([xf, gen_sample(rng, rng.randint(1, 4), "dyadic", scale)])
+        perm = list(range(y.size))
+        rng.shuffle(perm)
+        y = y[perm]
+    elif rel == "sorted_both":  # both samples arrive already ordered (ascending or descending)
+        desc = rng.random() < 0.5
+        c["x"] = x = (np.sort(x)[::-1].copy() if desc else np.sort(x))
+        y = np.sort(c["y"])[::-1].copy() if rng.random() < 0.5 else np.sort(c["y"])
+    else:  # vals_is_target: the evaluation vector is the target sample itself (same object)
+        y = c["y"]
+    c["y"] = y
+    if rel == "vals_is_target":
+        c["vals"] = y
+        aliases.append("vals_is_y")
+    else:
+        ylo, yhi = float(y.min()), float(y.max())
+        yspan = max(yhi - ylo, scale)
+        extra = [ylo, yhi, ylo - yspan / 4, yhi + yspan / 2, ylo - scale / 64, yhi + scale / 64] + [float(v) for v in rng.sample(list(y), min(3, y.size))]
+        extra = np.array(extra, dtype=float)
+        if c["vals"].dtype.kind == "i":
+            extra = np.rint(extra)
+        c["vals"] = np.concatenate([c["vals"], extra.astype(c["vals"].dtype)])
+    ps = set(c["ps"].tolist())
+    for kk in range(y.size + 1):  # the knots of the (new) target size
+        if y.size > 1:
+            ps.add(min(1.0, kk / (y.size - 1)))
+        ps.add(kk / y.size)
+    c["ps"] = np.array(sorted(ps), dtype=float)
+    c["relation"], c["aliases"] = rel, aliases
+    return c
+
+
 def hist_of(x):
     with warnings.catch_warnings():
         warnings.simplefilter("ignore")
@@ -131,7 +214,8 @@ def hist_of(x):
 
 def case_json(c):
     return {"x": c["x"].tolist(), "y": c["y"].tolist(), "y2": c["y2"].tolist(), "vals": c["vals"].tolist(), "ps": c["ps"].tolist(),
-            "scale": c["scale"], "dtype": c.get("dtype", "float64")}
+            "scale": c["scale"], "dtype": c.get("dtype", "float64"),
+            **({"relation": c["relation"], "aliases": c["aliases"], "k": c["k"]} if "relation" in c else {})}
 
 
 # ------------------------------------------------------------------ real code (quiet)
@@ -663,6 +747,17 @@ def oracle_endpoints(n, rng, problems, stats):
                 i = int(np.argmax(np.abs(out - want)))
                 bad(f"equal sizes ({em},{im}), n={n}: x[{i}] = {x[i]} (rank {int((x < x[i]).sum())} of {n}) is mapped to {out[i]} instead of the target's order statistic {want[i]}",
                     {"method": em, "iecdf": im, "law": "equal_sizes"})
+        # related source / target at every size (quantifier "for all samples": the pair may hold the same values): whatever lies
+        # outside the source range has ecdf exactly 0 / 1 and must be mapped exactly to min / max of the target (range law + end points)
+        im = IM[n % 9]
+        out_pts = np.array([xmin - 0.5, -1e30, xmax + 1.0, 1e30])
+        for how, tgt in (("an equal copy of the source", x.copy()), ("the source array itself", x), ("the reversed source", x[::-1].copy())):
+            for em in EM:
+                v = quiet(M.quantile_map_non_parametically, x, tgt, out_pts, em, im)
+                if not (v.shape == (4,) and v[0] == xmin and v[1] == xmin and v[2] == xmax and v[3] == xmax):
+                    bad(f"quantile map ({em},{im}), n={n}, target = {how}: values outside the source range {out_pts.tolist()} are mapped to {v.tolist()}, "
+                        f"not to min / max of the target [{float(xmin)}, {float(xmax)}]", {"method": em, "iecdf": im, "law": "qmap_range"})
+                stats["endpoint_related_checks"] += 1
     stats["endpoint_sizes"] += 1
 
 
@@ -733,9 +828,17 @@ def run(tier, res, force_search=False):
 
     rng = random.Random(C.seed() * 104729 + 16)
     res.rule = ("cases = (x, y, y2, evaluation points, probabilities) from one PRNG (VERIF_SEED): sizes 1..12, values k/64 with ties / tie-free / constant, "
-                "scaled exactly by 1, 2^40 or 2^-40; source sample and values as float64 (60%), float32 (20%) or integer-valued int64 (20%), target always float64; plus every sample size 1..400 and 1000, 4096, 10007, 20001 (tie-free) for the exact end-point laws; every case runs all 3 ecdf x 9 iecdf methods; non-trivial = sample has >= 2 distinct values; "
+                "scaled exactly by 1, 2^40 or 2^-40; source sample and values as float64 (60%), float32 (20%) or integer-valued int64 (20%), target always float64; plus (own PRNG stream) "
+                "RELATED source / target / evaluation vectors, every relation scheduled: target = the same values, the same array object, a permutation, a reversed view, a shifted / scaled / negated / "
+                "nearly equal copy, a sub-sample, a superset of the source, both samples sorted, evaluation vector = the target object, with evaluation points beyond both samples' ranges; plus every sample size 1..400 and 1000, 4096, 10007, 20001 (tie-free) for the exact end-point laws; every case runs all 3 ecdf x 9 iecdf methods; non-trivial = sample has >= 2 distinct values; "
                 "distinct = distinct (size x, size y, kind, scale, ties in x, ties in y) classes")
     res.trusted = C.BASE_TRUSTED + [
+        "tier A for the toolkit (translator/extract_stats.py -> Gen/Stats.lean, Lemmas/GenStats.lean): the bodies of IECDF, iecdf, ecdf, the three quantile maps, "
+        "_isimip_quantile_map_x_on_y_non_parametically and sort_array_like_another_one are regenerated as terms of the numpy-expression language of Model/NpStats.lean "
+        "(locals resolved through assignments, calls inlined, method dispatch as an if-chain); proved: regenerated term = expected term (gen_*) and denotation of the expected "
+        "term = Model/Stats.lean for every method literal, an error for any other string (sem_*). Trusted: the denotation of each primitive (np.sort, np.argsort, np.linspace, "
+        "np.interp, ECDF, rv_histogram.cdf on oracle bins, rankdata, np.quantile per method, np.floor(..).astype(int), indexing, mask assignment, min/max, comparisons, arithmetic) "
+        "and the extractor; **kwargs are taken to be empty, dtype conversions in the ISIMIP helper are ignored",
         "numpy's np.sort/argsort/quantile/interp/linspace/histogram, statsmodels' ECDF, scipy's rv_histogram/rankdata are modelled (Model/Stats.lean), not verified; "
         "np.argsort is not stable: rank-based statements carry a tie-free hypothesis",
         "np.histogram(bins='auto') bin edges and counts are an oracle argument of the histogram ecdf; the laws the theorems use (increasing edges, positive total, last edge = max x, "
@@ -759,12 +862,19 @@ def run(tier, res, force_search=False):
     problems = []
     stats = collections.Counter()
     cases = []
-    for k in range(n_cases):
-        c = gen_case(rng, k)
+    # related (source, target, evaluation vector) triples — see gen_related_case: their own PRNG stream (the independent cases keep
+    # theirs), every relation at least once through the whole treatment (correspondence with the Lean model + all oracles)
+    rng_rel = random.Random(C.seed() * 104729 + 1616)
+    n_rel = len(RELATIONS) if tier == "quick" else 10 * len(RELATIONS)
+    n_rel_extra = 2 * len(RELATIONS) if tier == "quick" else 30 * len(RELATIONS)
+    for k in range(n_cases + n_rel):
+        c = gen_case(rng, k) if k < n_cases else gen_related_case(rng_rel, 100000 + k - n_cases, k - n_cases)
         cases.append(c)
         x, y = c["x"], c["y"]
-        res.count((x.size, y.size, c["kind_x"], c["scale"], c["dtype"], np.unique(x).size < x.size, np.unique(y).size < y.size),
+        res.count((x.size, y.size, c["kind_x"], c["scale"], c["dtype"], np.unique(x).size < x.size, np.unique(y).size < y.size) + ((c["relation"],) if "relation" in c else ()),
                   np.unique(x).size >= 2, sample={"x": x.tolist()[:6], "y": y.tolist()[:6], "scale": c["scale"], "n_vals": int(c["vals"].size), "n_ps": int(c["ps"].size)})
+        if "relation" in c:
+            stats["related_" + c["relation"]] += 1
         oracle_purity(c, problems, stats)  # first: works on copies, before any helper has seen the case's own arrays
         oracle_inplace_sequences(c, problems, stats)
         oracle_subvectors(c, problems, stats)
@@ -783,10 +893,13 @@ def run(tier, res, force_search=False):
     # failing-input search on the real functions: small budget always, 3x when a tie broke
     if force_search or not lean_ok or corr.mismatches:
         n_oracle_extra *= 3
-    for k in range(n_oracle_extra):
-        c = gen_case(rng, n_cases + k)
-        res.count((c["x"].size, c["y"].size, c["kind_x"], c["scale"], c["dtype"], np.unique(c["x"]).size < c["x"].size, np.unique(c["y"]).size < c["y"].size),
-                  np.unique(c["x"]).size >= 2)
+        n_rel_extra *= 3
+    for k in range(n_oracle_extra + n_rel_extra):
+        c = gen_case(rng, n_cases + k) if k < n_oracle_extra else gen_related_case(rng_rel, 100000 + n_rel + k - n_oracle_extra, n_rel + k - n_oracle_extra)
+        res.count((c["x"].size, c["y"].size, c["kind_x"], c["scale"], c["dtype"], np.unique(c["x"]).size < c["x"].size, np.unique(c["y"]).size < c["y"].size)
+                  + ((c["relation"],) if "relation" in c else ()), np.unique(c["x"]).size >= 2)
+        if "relation" in c:
+            stats["related_" + c["relation"]] += 1
         oracle_purity(c, problems, stats)
         if k % 4 == 0:
             oracle_inplace_sequences(c, problems, stats)
@@ -831,8 +944,16 @@ def replay(data):
             print("REPRODUCED:", desc[:300], sig)
         return 1 if problems else 0
     dt = np.dtype(fi.get("dtype", "float64"))
-    c = dict(k=0, scale=fi["scale"], kind_x="replay", dtype=str(dt), x=np.array(fi["x"], dtype=dt), y=np.array(fi["y"], dtype=float), y2=np.array(fi["y2"], dtype=dt),
+    c = dict(k=int(fi.get("k", 0)), scale=fi["scale"], kind_x="replay", dtype=str(dt), x=np.array(fi["x"], dtype=dt), y=np.array(fi["y"], dtype=float), y2=np.array(fi["y2"], dtype=dt),
              vals=np.array(fi["vals"], dtype=dt), ps=np.array(fi["ps"], dtype=float))
+    if "relation" in fi:  # a related triple: re-establish the object identities / shared memory the case had
+        c["relation"], c["aliases"] = fi["relation"], fi.get("aliases", [])
+        if "y_is_x" in c["aliases"]:
+            c["y"] = c["x"]
+        if "y_is_reversed_view_of_x" in c["aliases"]:
+            c["y"] = c["x"][::-1]
+        if "vals_is_y" in c["aliases"]:
+            c["vals"] = c["y"]
     problems = []
     oracle(c, problems, collections.Counter())
     oracle_purity(c, problems, collections.Counter())
